@@ -10,6 +10,7 @@ mod cap;
 mod cli;
 mod dbg;
 mod edit;
+mod flag;
 mod cmd;
 mod prng;
 mod progs;
@@ -106,6 +107,7 @@ fn main() {
         "C14" => cmd::run(&o),
         "C05" => asm::run(&o),
         "C19" => asm::run_seq(&o),
+        "C18" => flag::run(&o),
         other => {
             eprintln!("unknown property {other}");
             std::process::exit(2);
